@@ -220,6 +220,28 @@ def run(rep):
                 rep.undecided("R02.b", file, name, f"{name}: extraction", fw[2] or jc[2], line=line)
             continue
         c01.branch_agreement(rep, "R02.a", name, file, "_forward", fw[0], "_jacobian", jc[0], line)
+        # an odd extension sign(x) * h(|x|) is increasing through 0 only if h(0) = 0: the offset subtracted must be the inner formula at 0, in
+        # every parameter branch (a jump at the origin breaks x1 < x2 => forward(x1) <= forward(x2) for points either side of it)
+        for c in fw[0]:
+            e_ = c.expr
+            if not (isinstance(e_, tuple) and e_[0] == 'mul' and any(isinstance(t_, tuple) and t_[:2] == ('call', 'sign') for t_ in e_[1:3])):
+                continue
+            inner = e_[2] if e_[1][:2] == ('call', 'sign') else e_[1]
+
+            def at_zero(t_):
+                if t_ == ('x',):
+                    return F.num(0)
+                if isinstance(t_, tuple) and t_[:2] == ('call', 'abs') and t_[2] == (('x',),):
+                    return F.num(0)
+                if isinstance(t_, tuple):
+                    return tuple(at_zero(u_) if isinstance(u_, tuple) else u_ for u_ in t_)
+                return t_
+            cons0 = f"{name} [{c01.case_text(c)}]: odd extension is continuous at 0 (the offset is the inner formula at x = 0)"
+            try:
+                z = F.Canon().ratio(at_zero(inner))
+                rep.check(z.is_zero(), "R02.c", file, f"{name}._forward", cons0, f"inner formula at 0 = {z}: forward jumps by twice that at the origin", line=tc.methods["_forward"].lineno)
+            except Undecided as ex:
+                rep.undecided("R02.c", file, f"{name}._forward", cons0, str(ex), line=tc.methods["_forward"].lineno)
         for m_ in ("_forward", "_jacobian"):
             c01.shortcut_agreement(rep, "R02.a", name, file, m_, table[name][m_][0], table[name].get("shortcuts:" + m_, []), line)
         for c in fw[0]:
